@@ -24,7 +24,7 @@ func c07modeCoq(m string) string {
 func (c *c07case) coq() (kind, term string) {
 	switch c.Kind {
 	case "args":
-		return "arg", fmt.Sprintf("(%d%%N, %s, (%s, %s, %s), %s, %s, %s, %s, %s, %s)", c.ID, c.Dir, coqBool(c.Defer), coqBool(c.Hold), coqBool(c.FuncV),
+		return "arg", fmt.Sprintf("(%d%%N, %s, (%s, %s), %s, %s, %s, %s, %s, %s)", c.ID, c.Dir, coqBool(c.Defer), coqBool(c.FuncV),
 			c07coqTypes(c.Sig.In), coqBool(c.Sig.Variadic), c07modeCoq(c.Mode), c07coqVals(c.Sent), c07coqVals(c.Impl), c07coqVals(c.Ref))
 	case "results":
 		p := c.CoqK
@@ -137,6 +137,93 @@ func (h *c07h) finish(out string, jobs []*c07job) error {
 			}
 		}
 	}
+	whoCoq := func(l []string, failed bool) string {
+		it := make([]string, len(l))
+		for i, w := range l {
+			it[i] = map[string]string{"script": "WScript", "host": "WHost", "both": "WBoth", "none": "WNone"}[w]
+		}
+		return "(" + coqList(it) + ", " + coqBool(failed) + ")"
+	}
+	for _, j := range jobs {
+		for _, d := range j.disps {
+			next++
+			d.ID = next
+			lay := map[string]string{"only": "LOnly", "first": "LFirst", "last": "LLast"}[d.f.layout]
+			facts := fmt.Sprintf("{| ef_ptr := %s; ef_layout := %s; ef_implements := %s; ef_nummeth := %s; ef_real := %s |}",
+				coqBool(d.f.ptr), lay, coqBool(d.f.implements), coqBool(d.f.nummeth), coqBool(d.f.real))
+			byKind["disp"] = append(byKind["disp"], fmt.Sprintf("(%d%%N, %s, %s, %s, %s, %s, %s)", d.ID, facts, coqStrList(d.e.over), coqBool(d.e.delegate),
+				coqStrList(d.e.iface.methods), whoCoq(d.impl, d.failed), whoCoq(d.inscript, d.infail)))
+			sm.ImplComparisons++
+			sm.RefComparisons++
+			sm.count("case:disp")
+			if d.region != "" {
+				sm.count("region:" + d.region)
+			}
+			info := map[string]any{"kind": "disp", "region": d.region}
+			for _, k := range []string{"stream", "iface", "embed", "layout", "overrides", "delegate", "pointer-receiver", "by-pointer", "pass"} {
+				info[k] = d.input[k]
+			}
+			sm.CaseIndex[fmt.Sprint(d.ID)] = info
+			g := d.e.gDispatch()
+			if d.failed || fmt.Sprint(d.impl) != fmt.Sprint(g) {
+				in := map[string]any{"script": d.input["script"]}
+				for k, v := range info {
+					in[k] = v
+				}
+				sm.RefMismatches = append(sm.RefMismatches, refMismatch{ID: d.ID, Region: d.region, Input: in,
+					Impl: map[string]any{"ran": d.impl, "failed": d.failed}, Ref: map[string]any{"ran": g, "in-script": d.inscript}, Note: "which implementation ran each method the host called"})
+			}
+		}
+	}
+	for _, j := range jobs {
+		for _, c := range j.sess {
+			next++
+			c.ID = next
+			oc := func(l []string) (string, bool) {
+				it := make([]string, len(l))
+				ok := true
+				for i, x := range l {
+					switch x {
+					case "ok":
+						it[i] = "OOk"
+					case "zero":
+						it[i] = "OZero"
+					default:
+						ok = false
+						it[i] = "OZero"
+					}
+				}
+				return coqList(it), ok
+			}
+			implT, ok1 := oc(c.impl)
+			refT, ok2 := oc(c.ref)
+			byKind["sess"] = append(byKind["sess"], fmt.Sprintf("(%d%%N, %s, %s, %s)", c.ID, coqList(c.steps), implT, refT))
+			sm.ImplComparisons++
+			sm.RefComparisons++
+			sm.count("case:sess")
+			if c.region != "" {
+				sm.count("region:" + c.region)
+			}
+			info := map[string]any{"kind": "sess", "region": c.region, "steps": c.input["steps"], "signature": c.input["signature"], "path": c.input["path"]}
+			sm.CaseIndex[fmt.Sprint(c.ID)] = info
+			allok := ok1 && ok2
+			for _, x := range append(append([]string{}, c.impl...), c.ref...) {
+				allok = allok && x == "ok"
+			}
+			if !allok {
+				in := map[string]any{"script": c.input["script"], "observed": c.input["observed"]}
+				for k, v := range info {
+					in[k] = v
+				}
+				region := c.region
+				if !ok1 || !ok2 {
+					region = "" // neither the function's results nor zero values
+				}
+				sm.RefMismatches = append(sm.RefMismatches, refMismatch{ID: c.ID, Region: region, Input: in, Impl: c.impl, Ref: "every native call gives the function's results, like the in-script calls: " + fmt.Sprint(c.ref),
+					Note: "a function value kept by the host across the session"})
+			}
+		}
+	}
 	for _, j := range jobs {
 		for _, m := range j.other {
 			next++
@@ -145,8 +232,8 @@ func (h *c07h) finish(out string, jobs []*c07job) error {
 		}
 	}
 	hdr := "From Verif Require Import Lib.Str Boundary.Types Boundary.Marshal Boundary.Cases.\n"
-	per := map[string]int{"arg": 120, "res": 150, "var": 200, "meth": 400, "wrap": 2000}
-	for _, k := range []string{"arg", "res", "var", "meth", "wrap"} {
+	per := map[string]int{"arg": 120, "res": 150, "var": 200, "meth": 400, "wrap": 2000, "disp": 2000, "sess": 2000}
+	for _, k := range []string{"arg", "res", "var", "meth", "wrap", "disp", "sess"} {
 		cases := byKind[k]
 		for i, n := 0, 0; i < len(cases); i, n = i+per[k], n+1 {
 			e := i + per[k]
